@@ -79,6 +79,15 @@ FLOWS = {
             " I --- 37:171871 63:262142 --:------ 10E0 038 000001C894030167FFFFFFFFFFFF1B0807E4564D492D313557534A3533000000000000000000",
         ),
     },
+    "REM-FAN-orcon": {
+        "resp": {"32:155617": {"class": "FAN", "scheme": "orcon"}},
+        "supp": {"29:158183": {"class": "REM", "scheme": "orcon", "faked": True}},
+        "pkts": (
+            " I --- 29:158183 --:------ 29:158183 1FC9 024 0022F17669E70022F37669E76710E07669E7001FC97669E7",
+            " W --- 32:155617 29:158183 --:------ 1FC9 012 0031D9825FE10031DA825FE1",
+            " I --- 29:158183 32:155617 --:------ 1FC9 001 00",
+        ),
+    },
     "DHW-CTL": {
         "resp": {"01:145038": {"class": "CTL"}},
         "supp": {"07:045960": {"class": "DHW", "faked": True}},
@@ -93,12 +102,12 @@ FLOWS = {
 THIRD = {
     # unrelated binding traffic (a third pair binding nearby), by kind
     "offer": " I --- 34:111111 --:------ 34:111111 1FC9 012 00230987B207001FC987B207",
-    "offer_bcast": " I --- 29:158183 63:262142 --:------ 1FC9 012 0022F17669E7001FC97669E7",
+    "offer_bcast": " I --- 29:111111 63:262142 --:------ 1FC9 012 0022F17669E7001FC97669E7",
     "accept_other": " W --- 01:999999 34:111111 --:------ 1FC9 006 0023090F423F",
     "confirm_other": " I --- 34:111111 01:999999 --:------ 1FC9 006 00230987B207",
 }
 
-THIRD_DEVICES = {"34:111111": {"class": "THM"}, "29:158183": {"class": "REM"}, "01:999999": {"class": "CTL"}}
+THIRD_DEVICES = {"34:111111": {"class": "THM"}, "29:111111": {"class": "REM"}, "01:999999": {"class": "CTL"}}
 
 BENIGN = ("rep", "third")  # (a cancelled attempt is judged like a faulty one: it must end cleanly and be retryable)
 
@@ -238,8 +247,12 @@ class BindWorld:
             rec["end"] = loop.time()
 
         rd, sd = (0.0, supp_delay) if supp_delay >= 0 else (-supp_delay, 0.0)
-        tr = loop.create_task(wrap("resp", lambda: self.resp._wait_for_binding_request(accept_codes, idx=idx, require_ratify=ratify), rd))
-        ts = loop.create_task(wrap("supp", lambda: self.supp._initiate_binding_process(offer_codes, confirm_code=confirm_code, ratify_cmd=ratify_cmd), sd))
+        if self.params.get("api"):  # the public per-device-class entry point: its own code list, no confirm code, no addenda
+            tr = loop.create_task(wrap("resp", lambda: self.resp._wait_for_binding_request(accept_codes, idx=idx, require_ratify=False), rd))
+            ts = loop.create_task(wrap("supp", lambda: self.supp.initiate_binding_process(), sd))
+        else:
+            tr = loop.create_task(wrap("resp", lambda: self.resp._wait_for_binding_request(accept_codes, idx=idx, require_ratify=ratify), rd))
+            ts = loop.create_task(wrap("supp", lambda: self.supp._initiate_binding_process(offer_codes, confirm_code=confirm_code, ratify_cmd=ratify_cmd), sd))
         self.tasks = {"resp": tr, "supp": ts}
         loop.quiesce_until(lambda: tr.done() and ts.done(), t0 + horizon)
         for name, t in (("resp", tr), ("supp", ts)):
@@ -308,7 +321,7 @@ def run_world(params: dict, prefix=(), expect=None):
 
 
 # ---------------------------------------------------------------------------------------------------------
-def _judge_attempt(tag: str, att: dict, flow: dict, must_succeed: bool, out: list, ctx: str) -> None:
+def _judge_attempt(tag: str, att: dict, flow: dict, must_succeed: bool, out: list, ctx: str, api: bool = False) -> None:
     exp = [p for p in flow["pkts"]]
     for name, bound in (("resp", END_BOUND_RESP), ("supp", END_BOUND_SUPP)):
         rec = att.get(name)
@@ -336,7 +349,19 @@ def _judge_attempt(tag: str, att: dict, flow: dict, must_succeed: bool, out: lis
         want = [p.strip() for p in exp] + [None] * (4 - len(exp))
         got = [None if x is None else x.strip() for x in a]
         got_s = [None if x is None else x.strip() for x in b]
-        if [g and g.replace(GS, "18:000730").replace(GR, "18:000730") for g in got] != want and got == got_s:
+        if api:
+            # the device class's own code list: the three phases in order, between the right parties
+            f = [None if x is None else x.split() for x in got]
+            rid, sid = exp[1].split()[2], exp[0].split()[2]
+            ok = (
+                f[0] is not None and f[1] is not None and f[2] is not None
+                and (f[0][0], f[0][2], f[0][4], f[0][5]) == ("I", sid, sid, "1FC9")
+                and (f[1][0], f[1][2], f[1][3], f[1][5]) == ("W", rid, sid, "1FC9")
+                and (f[2][0], f[2][2], f[2][3], f[2][5]) == ("I", sid, rid, "1FC9")
+            )
+            if not ok and got == got_s:
+                out.append((f"C20:{tag}:not-a-handshake", f"both ends report {a}: not offer/accept/confirm between {sid} and {rid} ({ctx})"))
+        elif [g and g.replace(GS, "18:000730").replace(GR, "18:000730") for g in got] != want and got == got_s:
             out.append((f"C20:{tag}:not-the-flow's-packets", f"both ends report {a}, the flow is {exp} ({ctx})"))
     elif rr and sr and must_succeed is False and (rr[0] == "ok") != (sr[0] == "ok"):
         pass  # under loss one end may succeed while the other fails (e.g. the last frame lost): allowed by the statement
@@ -354,7 +379,10 @@ def oracle(obs: dict, params: dict) -> list[tuple[str, str]]:
     kinds = obs["kinds"]
     benign_only = all(k in BENIGN for k in kinds) and 0.0 <= params.get("supp_delay", 0.0) < 4.5  # (a respondent that starts listening after the offer has missed it)
     ctx = f"flow {params['flow']}, supplicant delay {params.get('supp_delay', 0.0)}"
-    _judge_attempt("first", obs["first"], flow, benign_only, out, ctx)
+    api = bool(params.get("api"))
+    if api:
+        ctx += ", public initiate_binding_process()"
+    _judge_attempt("first", obs["first"], flow, benign_only, out, ctx, api)
     st = obs["state_at_end"]
     for role in ("resp", "supp"):
         if st[f"{role}_binding"]:
@@ -363,7 +391,7 @@ def oracle(obs: dict, params: dict) -> list[tuple[str, str]]:
         if _unretrieved_binding_failure(e):
             continue
         out.append((f"C20:loop-exception:{e[0]}:{e[2]}", f"unhandled in the event loop: {e} ({ctx})"))
-    _judge_attempt("retry", obs["second"], flow, True, out, ctx + ", fresh attempt after the episode")
+    _judge_attempt("retry", obs["second"], flow, True, out, ctx + ", fresh attempt after the episode", api)
     sf = obs["state_final"]
     for role in ("resp", "supp"):
         if sf[f"{role}_binding"]:
@@ -387,6 +415,8 @@ def scenarios(quick: bool) -> list[tuple[dict, int]]:
     sc: list[tuple[dict, int]] = []
     allk = ("rep", "lose", "late", "third", "cancel")
     for flow in FLOWS:
+        if flow == "REM-FAN-orcon":
+            continue  # (only driven through the public entry point below: the table row is not one of the repo's five)
         # every pattern of repeats over all frames of the handshake (benign only): D = number of frames
         sc.append(({"flow": flow, "dev": ("rep",)}, 3 if quick else 4))
         sc.append(({"flow": flow, "dev": ("rep", "third")}, 2 if quick else 3))
@@ -394,6 +424,9 @@ def scenarios(quick: bool) -> list[tuple[dict, int]]:
         sc.append(({"flow": flow, "dev": ("lose", "late", "cancel")}, 3 if quick else 4))
     for flow in ("RND-CTL", "REM-FAN"):
         sc.append(({"flow": flow, "dev": ("lose", "late", "cancel"), "retry_after": 12.0}, 2))
+    # the public entry points (code list chosen by the device class / vendor scheme)
+    for flow in ("RND-CTL", "CO2-FAN", "REM-FAN", "DHW-CTL", "REM-FAN-orcon"):
+        sc.append(({"flow": flow, "api": True, "dev": allk}, 2 if quick else 3))
     # who starts first, and by how much (around the 5 s offer wait)
     for flow in ("DHW-CTL", "CO2-FAN"):
         for d in (-1.0, -4.9, -5.2, 1.0, 4.9, 5.2, 12.0):
